@@ -1,6 +1,39 @@
-"""C05 — decided on the session machine."""
+"""C05 — decided on the session machine, plus a read whose reply is in flight across a logout on another replica."""
+import json
+
+from lib import vf
+from lib.machine import authenticated
 from lib.props import _mach
+
+LOGOUT_OK = {"lo": 302, "ll": 204, "fc": 200}
 
 
 def run(ctx):
     _mach.run_modes(ctx, ['conc', 'crash', 'history'], ['c05'])
+    # The machine's steps execute a store command and deliver its reply in one step. Here the two are separated for one read:
+    # replica 1 has a read in flight (executed by Redis, reply not yet delivered) while replica 2 completes a logout; a request that
+    # arrives at replica 1 AFTER the logout answered must be unauthenticated and must not be able to read / refresh the session.
+    pre = ctx.path("inflight")
+    out, dt = vf.run_driver(["inflight", "-out", pre, "-seed", str(ctx.seed), "-tier", ctx.tier])
+    ctx.timings["inflight"] = round(dt, 2)
+    n = 0
+    for line in open(pre + ".obs"):
+        d = json.loads(line)
+        n += 1
+        lo = d["logout_outcome"]
+        if not d["logout_done"] or lo[:2] != [2, LOGOUT_OK[d["logout"]]]:
+            continue
+        o = d["later_outcome"]
+        served = authenticated(o) or o[0] == 3 or (d["later"] == "f" and o[:2] == [2, 204])
+        if served:
+            ctx.violation("c05-authenticated-after-logout",
+                          "a request that started after the logout had answered success was treated as authenticated / could read or refresh the session "
+                          "(another request's store read was still in flight on the same replica when the other replica logged the session out)", d)
+        if d["entry_exists_at_end"]:
+            ctx.violation("c05-entry-after-logout", "the session's store entry exists after the logout answered success (in-flight read scenario)", d)
+        if not d["later_done"]:
+            ctx.violation("c05-later-request-stuck", "a request arriving after the logout never completed", d)
+    ctx.evals += n
+    ctx.nontrivial += n
+    ctx.extra["inflight_read_scenarios"] = n
+    ctx.rule += "; plus %d scenarios {first request kind} x {logout variant on the other replica} x {later request kind} x {standalone, SSO server} with one store read executed but undelivered across the logout" % n
